@@ -274,6 +274,9 @@ func (d *driver) merge(spec PhaseSpec, agg *phaseAgg, wo *WorkerOut) {
 	if wo.Truncated {
 		agg.Truncated = true
 	}
+	if wo.SimLimit != "" {
+		d.infraErr = append(d.infraErr, fmt.Sprintf("the simulator ran out of a fixed resource in %d run(s) of phase %s (%s): no verdict on those runs", wo.Stats["simulator_limit_runs"], spec.Name, wo.SimLimit))
+	}
 	for k, v := range wo.Stats {
 		d.stats[k] += v
 	}
